@@ -237,9 +237,16 @@ def writeHeader (c : Cfg) (s : St) (calcLen : Bool) : St :=
   let s := { s with bytes := writeAt s.bytes 0 h, dataoffset := h.length }
   { s with pos := if cur > 0 then cur else h.length }
 
-/-- w64_open in write mode on an empty store: sf.frames still holds the CALLER's value when the first header is
-    written (it reaches the 'fact' chunk of that header), then the codec's init zeroes it -/
-def openW (c : Cfg) (staleFrames : Int) : St :=
+/-- w64_open in write mode on an empty store (since the repair of w64_open: filelength, datalength, dataoffset and sf.frames
+    are reset as in wav_open / caf_open, so the caller's SF_INFO.frames is not used) -/
+def openW (c : Cfg) (_staleFrames : Int) : St :=
+  let s : St := { frames := 0, datalength := 0, dataoffset := 0 }
+  let s := writeHeader c s false
+  { s with datalength := 0, frames := 0 }
+
+/-- the rule before the repair: sf.frames still held the CALLER's value and datalength was −1 when the first header was
+    written (they reached the 'fact' chunk and the 'data' size of that header), then the codec's init zeroed them -/
+def openW_old (c : Cfg) (staleFrames : Int) : St :=
   let s : St := { frames := staleFrames }
   let s := writeHeader c s false
   { s with datalength := 0, frames := 0 }
